@@ -4,6 +4,7 @@ use crate::{
     io::{
         cache::PageCache,
         disk::{DBFile, FileOperations, FileSystem, FileSystemBlockSize},
+        journal::{Journal, Leftover},
         logger::Operation,
         wal::{AnalysisResult, WriteAheadLog},
     },
@@ -22,7 +23,7 @@ use crate::{
 
 use std::{
     io::{self, Error as IoError, ErrorKind, Read, Seek, SeekFrom, Write},
-    path::Path,
+    path::{Path, PathBuf},
 };
 
 /// Implementation of a pager.
@@ -31,6 +32,8 @@ pub struct Pager {
     wal: WriteAheadLog,
     cache: PageCache,
     db_header: Option<PageZeroHeader>, // Page zero header is always in memory
+    /// Contents of the pages overwritten since the last checkpoint. See [`Journal`].
+    journal: Option<Journal>,
 }
 
 impl<'a> FileOperations for Pager {
@@ -49,6 +52,7 @@ impl<'a> FileOperations for Pager {
             cache,
             wal,
             db_header: None,
+            journal: None,
         })
     }
 
@@ -68,10 +72,15 @@ impl<'a> FileOperations for Pager {
             cache,
             wal,
             db_header: None,
+            journal: None,
         };
+
+        // The log applies to the file as the last checkpoint left it.
+        pager.return_to_checkpoint(Journal::leftover(Self::journal_path(&path))?)?;
 
         let page_zero = pager.load_page_zero(block_size)?;
         pager.db_header = Some(*page_zero.metadata());
+        pager.start_journal(&path)?;
         // The cache size the database was created with is kept in the header.
         pager
             .cache
@@ -85,6 +94,7 @@ impl<'a> FileOperations for Pager {
         let dir = path.as_ref().parent().expect("Not a directory");
         let wal_path = dir.join("axmos.log");
         WriteAheadLog::remove(&wal_path)?;
+        Journal::remove(Self::journal_path(&path))?;
         Ok(())
     }
 
@@ -98,6 +108,9 @@ impl<'a> FileOperations for Pager {
         self.file.truncate()?;
         self.cache.clear();
         self.wal.truncate()?;
+        if let Some(journal) = self.journal.as_mut() {
+            journal.reset(0)?;
+        }
         Ok(())
     }
 }
@@ -120,10 +133,90 @@ impl Pager {
     }
 
     pub(crate) fn from_config(config: DBConfig, path: impl AsRef<Path>) -> io::Result<Self> {
-        let mut pager = Pager::create(path)?;
+        let mut pager = Pager::create(&path)?;
         let page_zero = pager.alloc_page_zero(config)?;
         pager.db_header = Some(*page_zero.metadata());
+        // Nothing else syncs the file before the first checkpoint.
+        pager.file.sync_all()?;
+        pager.start_journal(&path)?;
         Ok(pager)
+    }
+
+    fn journal_path(path: impl AsRef<Path>) -> PathBuf {
+        let dir = path.as_ref().parent().expect("Not a directory");
+        dir.join("axmos.journal")
+    }
+
+    /// Number of pages the database file holds right now.
+    fn pages_on_disk(&self) -> io::Result<u64> {
+        Ok(self.file.metadata()?.len() / self.page_size() as u64)
+    }
+
+    /// From here on, the file as it is now is the checkpoint that the log applies to.
+    fn start_journal(&mut self, path: impl AsRef<Path>) -> io::Result<()> {
+        let base_pages = self.pages_on_disk()?;
+        self.journal = Some(Journal::create(
+            Self::journal_path(path),
+            self.page_size(),
+            base_pages,
+        )?);
+        Ok(())
+    }
+
+    /// Undoes what an interrupted run did to the file after its last checkpoint, or finishes the
+    /// checkpoint it had completed.
+    fn return_to_checkpoint(&mut self, leftover: Leftover) -> io::Result<()> {
+        match leftover {
+            Leftover::Nothing => Ok(()),
+            Leftover::DropLog => {
+                self.wal.truncate()?;
+                self.wal.flush()
+            }
+            Leftover::Restore {
+                page_size,
+                base_pages,
+                pages,
+            } => {
+                let mut block: MemBlock<PageZeroHeader> = MemBlock::new(page_size);
+                for (page, bytes) in pages {
+                    block.as_mut().copy_from_slice(&bytes);
+                    self.file
+                        .seek(SeekFrom::Start(Self::page_offset(page, page_size as u64)))?;
+                    self.file.write_all(block.as_ref())?;
+                }
+                if self.file.metadata()?.len() > base_pages * page_size as u64 {
+                    self.file.set_len(base_pages * page_size as u64)?;
+                }
+                self.file.sync_all()
+            }
+        }
+    }
+
+    /// Saves the checkpointed contents of the pages that are about to be overwritten.
+    fn save_checkpointed(
+        &mut self,
+        pages: impl Iterator<Item = PageId>,
+        page_size: usize,
+    ) -> io::Result<()> {
+        if self.journal.is_none() {
+            return Ok(());
+        }
+        let mut saved_any = false;
+        for page in pages {
+            if !self.journal.as_ref().is_some_and(|j| j.needs(page)) {
+                continue;
+            }
+            let mut block: MemBlock<PageZeroHeader> = MemBlock::new(page_size);
+            self.read_block(page, block.as_mut(), page_size)?;
+            if let Some(journal) = self.journal.as_mut() {
+                journal.save(page, block.as_ref())?;
+                saved_any = true;
+            }
+        }
+        if saved_any && let Some(journal) = self.journal.as_ref() {
+            journal.sync()?;
+        }
+        Ok(())
     }
 
     /// Allocates page zero from the provided configuration
@@ -346,6 +439,10 @@ impl Pager {
         Self::validate_alignment_of(content.as_ptr() as usize, PAGE_ALIGNMENT as usize)?;
         Self::validate_alignment_of(content.len() as usize, PAGE_ALIGNMENT as usize)?;
 
+        // The last checkpoint must stay recoverable until the next one is complete.
+        let pages = (content.len() / block_size.max(1)) as u64;
+        self.save_checkpointed(start_page_number..start_page_number + pages.max(1), block_size)?;
+
         // Seek in the file to the targete offset and write the content
         self.file.seek(SeekFrom::Start(offset))?;
         self.file.write_all(content)?;
@@ -552,6 +649,16 @@ impl Write for Pager {
         let block_size = self.page_size();
         self.wal.flush()?;
         let pages = self.cache.clear();
+        // One sync of the journal for the whole checkpoint instead of one per page.
+        self.save_checkpointed(
+            std::iter::once(PAGE_ZERO).chain(
+                pages
+                    .iter()
+                    .filter(|page| page.is_dirty())
+                    .map(|page| page.page_number()),
+            ),
+            block_size,
+        )?;
         for page in pages {
             let page_number = page.page_number();
             if page.is_dirty() {
@@ -562,8 +669,17 @@ impl Write for Pager {
         self.sync_header()?;
 
         self.file.flush()?;
+        self.file.sync_all()?;
+        // The file is the new checkpoint from here on; what is left is to drop the log.
+        if let Some(journal) = self.journal.as_mut() {
+            journal.mark_done()?;
+        }
         self.wal.truncate()?;
         self.wal.flush()?;
+        let base_pages = self.pages_on_disk()?;
+        if let Some(journal) = self.journal.as_mut() {
+            journal.reset(base_pages)?;
+        }
         Ok(())
     }
 }
